@@ -2068,15 +2068,51 @@ func checkReadInForest(p *Program, r *Report, rule string) {
 		ename := p.FuncName(e)
 		reach := p.StaticReach(e)
 		reach[e] = true
-		keyed, walks := 0, 0
+		keyed, walks, translated := 0, 0, 0
 		for _, g := range sortedFuncs(p, reach) {
 			if g.Blocks == nil || !p.owns(g) {
 				continue
 			}
 			for _, b := range g.Blocks {
 				for _, in := range b.Instrs {
-					if kind, method, _ := storeCall(p, in); kind == "nodes" && method == "Get" {
+					if kind, method, cc := storeCall(p, in); kind == "nodes" && method == "Get" {
 						keyed++
+						// a key that is the caller's position itself is absent when the position is;
+						// a key computed from it (translated into another layout) can land on a stored node
+						var via *ssa.Call
+						if len(cc.Args) > 0 {
+							flowsFrom(cc.Args[0], func(y ssa.Value) bool {
+								c, ok := y.(*ssa.Call)
+								if !ok || c.Common().StaticCallee() == nil || !p.owns(c.Common().StaticCallee()) {
+									return false
+								}
+								for _, a := range c.Common().Args {
+									if par, ok := a.(*ssa.Parameter); ok && isUint64(par.Type()) && par.Parent() == g {
+										via = c
+										return true
+									}
+								}
+								return false
+							}, 0, map[ssa.Value]bool{})
+						}
+						if via != nil {
+							translated++
+							n++
+							key := fmt.Sprintf("%s/%s/translated-key#%d", ename, p.FuncName(g), translated)
+							subject := func(v ssa.Value) bool {
+								par, ok := v.(*ssa.Parameter)
+								return ok && isUint64(par.Type()) && par.Parent() == g
+							}
+							gd, ok := existenceGuardFor(p, b, subject)
+							if !ok {
+								gd, ok = existenceGuardFor(p, via.Block(), subject)
+							}
+							if ok {
+								r.Discharge(rule, key, posOf(p, in), "the position is tested with "+gd+" before it is translated into the store's layout", true)
+							} else {
+								r.Violate(rule, key, posOf(p, in), "the store is read at a key computed from the position ("+calleeLabel(p, via.Common())+") without an exact existence test of the position: translating a position that does not exist in the forest can land on a stored node, whose hash is returned instead of the zero hash", "in "+p.FuncName(g)+", reached from "+ename)
+							}
+						}
 						continue
 					}
 					ia, ok := in.(*ssa.IndexAddr)
